@@ -11,7 +11,10 @@ context only while it may touch it at all: it holds a reference, or it runs insi
 of the loop for that registered context, or it created the context and the loop has not yet
 taken it over from the hand-over queue. A worker releases only a reference it holds. The
 loop's own acts happen only while the loop runs; a context gets a turn only while it is
-registered. -/
+registered and the loop is not already inside `cb_close` for it; `closeEnd c` is the return of
+that callback; the loop does not leave `run` from inside a callback. Acts of other threads
+(`retain`, `workerRelease`, `shutdown`, peers) are legal at *any* point, in particular between
+`closeBegin c` and `closeEnd c`, i.e. while the loop is inside the user's `cb_close`. -/
 def Legal (s : St) : Act → Prop
   | .connect _ => True
   | .send _ _ => True
@@ -21,8 +24,11 @@ def Legal (s : St) : Act → Prop
   | .workerRelease c => 0 < (s.ctx c).held
   | .handOver => s.exited = false
   | .wake => s.exited = false
-  | .dispatch c _ => s.exited = false ∧ c ∈ s.reg
-  | .exit => s.exited = false
+  | .dispatch c _ => s.exited = false ∧ c ∈ s.reg ∧ (s.ctx c).closing = false
+  | .turnRead c _ => s.exited = false ∧ c ∈ s.reg ∧ (s.ctx c).closing = false
+  | .closeBegin c => s.exited = false ∧ c ∈ s.reg ∧ (s.ctx c).closing = false
+  | .closeEnd c => s.exited = false ∧ (s.ctx c).closing = true
+  | .exit => s.exited = false ∧ ∀ c ∈ s.reg, (s.ctx c).closing = false
 
 theorem live_of_may_touch {s : St} (hi : Inv s) {c : Nat}
     (h : 0 < (s.ctx c).held ∨ c ∈ s.reg ∨ c ∈ s.queue) : (s.ctx c).mem = .live := by
@@ -53,10 +59,19 @@ theorem apply_inv {s : St} (hi : Inv s) (a : Act) (hl : Legal s a) :
     obtain ⟨s', h, hi', _⟩ := onWake_inv s.queue.length hi hl (Nat.le_refl _)
     exact ⟨s', h, hi'⟩
   | dispatch c k =>
-    obtain ⟨s', h, hi', _⟩ := dispatchCtx_inv hi hl.1 hl.2 k
+    obtain ⟨s', h, hi', _⟩ := dispatchCtx_inv hi hl.1 hl.2.1 hl.2.2 k
+    exact ⟨s', h, hi'⟩
+  | turnRead c k =>
+    obtain ⟨s', h, hi', _⟩ := turnRead_inv hi hl.1 hl.2.1 k
+    exact ⟨s', h, hi'⟩
+  | closeBegin c =>
+    obtain ⟨s', h, hi', _⟩ := closeBegin_inv hi hl.2.1 hl.2.2
+    exact ⟨s', h, hi'⟩
+  | closeEnd c =>
+    obtain ⟨s', h, hi', _⟩ := closeEnd_inv hi hl.1 hl.2
     exact ⟨s', h, hi'⟩
   | exit =>
-    obtain ⟨s', h, hi', _⟩ := runExit_inv hi hl
+    obtain ⟨s', h, hi', _⟩ := runExit_inv hi hl.1 hl.2
     exact ⟨s', h, hi'⟩
 
 /-- a history all of whose acts are legal at the point where they happen -/
